@@ -22,6 +22,6 @@ Print Assumptions c13_parser_no_panic.
 (* every accepted tree is one the expander handles: each field-operation chain has a root
    field and a well-formed tail, every tuple index fits in u32 *)
 Theorem c13_accepted_tree_well_formed : forall regex join_ok parse_expr parse_path parse_closure fuel start ts v p,
-  parse_top_from regex join_ok parse_expr parse_path parse_closure fuel start ts = TOk v p -> pat_ok p = true.
+  parse_top_from regex join_ok parse_expr parse_path parse_closure fuel start ts = TOk v p -> tree_ok p = true.
 Proof. exact parse_top_ok. Qed.
 Print Assumptions c13_accepted_tree_well_formed.
